@@ -119,7 +119,8 @@ func checkPage(leaf *refpq.Node, p *refpq.Page) []string {
 	}
 	if leaf.DefLevel > 0 {
 		if !st.Present || !st.HasNull {
-			out = append(out, "null_count absent on a column that has definition levels")
+			// statistics are optional in the format: an absent null_count
+			// asserts nothing and therefore cannot be unsound
 		} else if st.NullCount != int64(nulls) {
 			out = append(out, fmt.Sprintf("null_count %d but the page has %d entries without a value", st.NullCount, nulls))
 		}
@@ -420,7 +421,7 @@ func Main() {
 		Rule: "part 1: for each of the 24 columns of flat24 (8 types x required/optional/repeated) every ordered page content of length <= m over the type's alphabet (extremes, NaN/Inf, -0, empty/long/non-UTF8 strings, the library's sentinel string), nulls interleaved, as one page and split over pages (page size 1, 2), lists in one record; " +
 			"part 2: person/document (leaves inside optional and repeated groups): every pair of record structures with <= s nodes with alphabet values in several rotations. Oracle on every page the reference parser decodes: null_count == #(def < max); min/max, when present, bound every non-null non-NaN value in the type's order; absent when there is no non-null value. distinct = case tag",
 		Assumptions: []string{
-			"absent min/max are accepted (the property only constrains them when present)",
+			"absent statistics, absent null_count and absent min/max are accepted (the property constrains what is written, and statistics are optional in the format)",
 			"order: signed for int32/int64, unsigned for uint32/uint64 (UINT_32/UINT_64), IEEE for floats with -0 == +0 and NaN values skipped, bytewise for strings",
 		},
 		Run:            run,
